@@ -8,18 +8,20 @@ import (
 	"math/rand"
 
 	"github.com/unixpickle/model3d/model3d"
+	"verif/vlib"
 )
 
 // node3 is a constructed 3D solid plus what the harness knows about it.
 type node3 struct {
-	api   string
-	s     model3d.Solid
-	def   func(C3) bool // one-level underlying definition (wrappers only)
-	hints []C3          // points expected inside / near the shape
-	desc  string
-	kids  []*node3
+	api    string
+	s      model3d.Solid
+	def    func(C3) bool // one-level underlying definition (wrappers only)
+	hints  []C3          // points expected inside / near the shape
+	desc   string
+	kids   []*node3
 	costly bool
 	inside []C3 // forward images the definition puts inside
+	extra  func(c *vlib.Case, q *querier)
 }
 
 func (n *node3) subject() *subject {
@@ -32,6 +34,7 @@ func (n *node3) subject() *subject {
 		s.inside = append(s.inside, p3(p))
 	}
 	s.costly = n.costly
+	s.extra = n.extra
 	return s
 }
 
